@@ -6,7 +6,7 @@ from hypothesis import strategies as st
 
 from pyoma2.functions import ssi
 
-from ..core import J, Sub, raised, rng_of, sut
+from ..core import relayout, J, Sub, raised, rng_of, sut
 
 PROPERTY = "C12"
 RULE = (
@@ -121,7 +121,10 @@ def shape_case(draw, lmax=6, brmax=8, extra=200, methods=("cov_mm", "cov_R")):
     br = draw(st.integers(1, brmax))
     n = 4 * br + 12 + draw(st.integers(0, extra))
     return {"method": draw(st.sampled_from(methods)), "l": l, "r": r, "br": br, "Ndat": n,
-            "seed": draw(st.integers(0, 2**32 - 1)), "alpha": draw(st.floats(-3, 3)), "beta": draw(st.floats(-3, 3))}
+            "seed": draw(st.integers(0, 2**32 - 1)), "alpha": draw(st.floats(-3, 3)), "beta": draw(st.floats(-3, 3)),
+            "layout": draw(st.sampled_from(["C", "C", "F", "colslice", "rowstep", "neg"])),  # memory layout of the record handed in
+            "dtype": draw(st.sampled_from(["float64", "float64", "float64", "int16", "int32", "int64"])),  # integer records = raw ADC counts
+            "refperm": draw(st.integers(0, 2**16))}
 
 
 def judge_bilinear(case):
@@ -163,9 +166,20 @@ def judge_definition(case):
     j.nontrivial(l > 1 or r > 1)
     rng = rng_of(case["seed"])
     Y, R = _padded(rng, l, n, pad), _padded(rng, r, n, pad)
-    out = sut(ssi.build_hank, Y.copy(), R.copy(), br, method)
+    dt_ = case.get("dtype", "float64")
+    if dt_ != "float64":
+        # whole-number records with counts that fill the integer type; the truth below is computed from the same values in double precision
+        amp = {"int16": 7e3, "int32": 5e5, "int64": 3e6}[dt_]
+        lim = 0.97 * np.iinfo(dt_).max
+        Y, R = np.clip(np.rint(Y * amp), -lim, lim), np.clip(np.rint(R * amp), -lim, lim)
+        Y, R = np.rint(Y), np.rint(R)
+    j.tag("layout=" + case.get("layout", "C"), dt_)
+    Yin, Rin = relayout(Y.astype(dt_), case.get("layout", "C")), relayout(R.astype(dt_), case.get("layout", "C"))
+    Yk, Rk = Yin.copy(), Rin.copy()
+    out = sut(ssi.build_hank, Yin, Rin, br, method)
     if not j.check(not raised(out), "definition-raises", lambda: f"{out!r}"):
         return j
+    j.check(np.array_equal(Yin, Yk) and np.array_equal(Rin, Rk), "definition-mutates-input", "build_hank modified the records it was given")
     H = np.asarray(out[0])
     if not j.check(H.shape == ((p + 1) * l, q * r), "definition-shape", lambda: f"{H.shape}"):
         return j
@@ -210,6 +224,11 @@ def judge_projection(case):
     # coloured data so that the projection is not trivial
     Y = np.cumsum(rng.normal(size=(l, n)), axis=1) * 0.1 + rng.normal(size=(l, n))
     refs = sorted(rng.choice(l, size=r, replace=False).tolist())
+    if r >= 2 and case["seed"] % 3 == 1:
+        # two neighbouring sensors measuring almost the same motion: nearly collinear reference channels
+        eps = [1e-2, 1e-3, 1e-4][case["seed"] % 7 % 3]
+        Y[refs[1]] = Y[refs[0]] + eps * rng.normal(size=n)
+        j.tag("nearly-collinear-references")
     R = Y[refs, :]
     out = sut(ssi.build_hank, Y.copy(), R.copy(), br, "dat")
     if not j.check(not raised(out), "projection-raises", lambda: f"{out!r}"):
@@ -221,18 +240,63 @@ def judge_projection(case):
     cols = np.arange(N - 1)
     Yf = np.vstack([Y[:, q + 1 + i + cols] for i in range(p + 1)])  # future outputs, lag i+1.. relative to newest past
     Yp = np.vstack([R[:, q - jj + cols] for jj in range(q)])  # past reference outputs, newest first
-    Cpp = Yp @ Yp.T
-    if np.linalg.cond(Cpp) > 1e8:
-        j.skip("cond(Cpp)>1e8")
+    sv = np.linalg.svd(Yp, compute_uv=False)
+    condp = sv[0] / sv[-1] if sv[-1] > 0 else np.inf
+    if condp > 1e6:
+        j.skip("cond(Yp)>1e6")
         return j
-    Cfp = Yf @ Yp.T
-    G = Cfp @ np.linalg.solve(Cpp, Cfp.T)
+    Q, _ = np.linalg.qr(Yp.T)  # orthonormal basis of the row space of the past reference outputs
+    B = Yf @ Q
+    G = B @ B.T
     HH = H @ H.T
     # normalisation: H H^T = G / D with D about N
     ratio = np.trace(G) / np.trace(HH)
     j.check(abs(ratio - N) <= 2.0 + 1e-6, "projection-normalisation", lambda: f"trace ratio {ratio!r}, N={N}")
     err = np.max(np.abs(HH * ratio - G)) / np.max(np.abs(G))
-    j.check(err <= 1e-8, "projection-gram", lambda: f"relative Gram error {err:.3e}")
+    j.check(err <= 1e-8 + 1e-13 * condp, "projection-gram", lambda: f"relative Gram error {err:.3e} (cond(Yp) = {condp:.2e})")
+    return j
+
+
+def judge_class_matrix(case):
+    """SSIcov / SSIdat through SingleSetup: result.H is the block matrix of the setup's record against the reference
+    channels in the order the user listed them (function level decided by the other sub-checks)."""
+    from pyoma2.algorithms import SSIcov, SSIdat
+    from pyoma2.setup import SingleSetup
+
+    j = J()
+    method, l, r, br = case["method"], case["l"], case["r"], case["br"]
+    n = max(case["Ndat"], 6 * (br + 1) * (l + r) + 2 * br + 4)
+    rng = rng_of(case["seed"])
+    Y = np.cumsum(rng.normal(size=(n, l)), axis=0) * 0.1 + rng.normal(size=(n, l))
+    prng = rng_of(case.get("refperm", 0))
+    refs = [int(v) for v in prng.permutation(l)[:r]]  # any order, not only ascending
+    use_refs = not (r == l and case.get("refperm", 0) % 3 == 0)
+    j.tag(method, "ref_ind=None" if not use_refs else ("refs-ascending" if refs == sorted(refs) else "refs-unsorted"))
+    j.nontrivial(use_refs and refs != sorted(refs))
+    ordmax = max(2, min(4, br * r))
+    if ordmax > br * r:
+        j.skip("order-exceeds-rank")
+        return j
+    ss = SingleSetup(relayout(Y, case.get("layout", "C")), fs=50.0)
+    kw = dict(name="a", br=br, ordmax=ordmax)
+    if use_refs:
+        kw["ref_ind"] = list(refs)
+    alg = SSIdat(**kw) if method == "dat" else SSIcov(method=method, **kw)
+    ss.add_algorithms(alg)
+    rr = sut(ss.run_by_name, "a")
+    if raised(rr) and rr.type == "LinAlgError":
+        j.skip("identification-singular")  # the realisation, not the block matrix, failed
+        return j
+    if not j.check(not raised(rr), "class-matrix-run-raises", lambda: f"{rr!r}"):
+        return j
+    Yt = Y.T.copy()
+    ref = sut(ssi.build_hank, Yt, Yt[refs if use_refs else list(range(l)), :].copy(), br, method)
+    if raised(ref):
+        raise RuntimeError(f"{ref!r}")
+    H, Hr = np.asarray(alg.result.H), np.asarray(ref[0])
+    if j.check(H.shape == Hr.shape, "class-matrix-shape", lambda: f"{H.shape} vs {Hr.shape}"):
+        j.check(np.max(np.abs(H - Hr)) <= 1e-10 * np.max(np.abs(Hr)), "class-matrix-value",
+                lambda: f"result.H differs from build_hank(data, data[ref_ind={refs if use_refs else None}], br={br}, {method!r}): max diff {np.max(np.abs(H - Hr)):.3e}")
     return j
 
 
@@ -244,6 +308,8 @@ SUBS = [
         rule="H(aY+bY', R) = aH(Y,R)+bH(Y',R) and likewise in the reference argument, cov_mm and cov_R, 1e-12"),
     Sub("definition", judge_definition, shape_case(), quick=300, thorough=6000,
         rule="zero-padded random records: every block equals the plain lagged cross-correlation sum times a uniform weight ~ 1/(number of products)"),
+    Sub("class_matrix", judge_class_matrix, shape_case(methods=("cov_mm", "cov_R", "dat"), lmax=5, brmax=6), quick=120, thorough=3000,
+        rule="SSIcov / SSIdat through SingleSetup: result.H equals build_hank(data, data[ref_ind], br, method) for reference lists in any order"),
     Sub("projection", judge_projection, shape_case(methods=("dat",), lmax=5, brmax=6), quick=200, thorough=4000,
         rule="method 'dat': shape (br+1)l x (br+1)r and H H^T = C_fp C_pp^-1 C_fp^T / N from lagged sums (cond(C_pp) <= 1e8)"),
 ]
